@@ -56,6 +56,21 @@ const attrSrc = (k) => (NI_EXTRA[k] ? NI_EXTRA[k] : E.ATTRS[k].src);
 const attrName = (k) => (NI_EXTRA[k] ? k : E.ATTRS[k].src.split(/[=\s{]/)[0]);
 const VECTORS = [...product([[false, true], [false, true], [true, false], [true, false], [false, true], [false, true]])].map(([transformOn, optimize, mergeProps, enableObjectSlots, resolveType, pattern]) => ({ transformOn, optimize, mergeProps, enableObjectSlots, resolveType, pattern }));
 
+// ---- (c) .tsx modules that contain no call to Vue's defineComponent: resolveType has nothing to govern
+const RT_MODULES = {
+  jsxOnly: "const a = <div id={x as any}>{y!}</div>;",
+  typesOnly: "interface P { a: string }\ntype Q = P & { b?: number };\nexport const v: Q = { a: 's' };",
+  localFn: "function defineComponent(s: any, o?: any) { return [s, o]; }\nexport const C = defineComponent((props: { a: string }) => () => null);",
+  otherLib: "import { defineComponent } from 'other-lib';\nexport const C = defineComponent((props: { a: string }) => () => null);",
+  namespace: "import * as Vue from 'vue';\nexport const C = Vue.defineComponent((props: { a: string }) => () => null);",
+  shadowParam: "import { defineComponent } from 'vue';\nexport function scope(defineComponent: any) { const Inner = defineComponent((props: { a: string }, ctx: SetupContext<(e: 'x') => void>) => () => null); return Inner; }",
+  shadowInnerFn: "import { defineComponent } from 'vue';\nexport function scope() { function defineComponent(s: any) { return s; } const Inner = defineComponent((props: { a: string }) => () => <i />); return Inner; }",
+  shadowArrowParam: "import { defineComponent } from 'vue';\nexport const scope = (defineComponent: any) => defineComponent((props: { a: string }) => null);",
+  shadowCatch: "import { defineComponent } from 'vue';\nexport function scope() { try { throw 0; } catch (defineComponent: any) { return defineComponent((props: { a: string }) => null); } }",
+  aliasedOther: "import { defineAsyncComponent as defineComponent } from 'vue';\nexport const C = defineComponent((props: { a: string }) => () => null);",
+};
+const RT_VECTORS = [...product([[false, true], [false, true], [true, false], [true, false]])].map(([transformOn, optimize, mergeProps, enableObjectSlots]) => ({ transformOn, optimize, mergeProps, enableObjectSlots }));
+
 function features(c) {
   const names = c.at.map(attrName);
   const f = { transformOn: names.includes('on') || names.includes('nativeOn') };
@@ -84,6 +99,7 @@ function requests(c) {
     }
     return reqs;
   }
+  if (c.sp === 'R') return [false, true].map((resolveType) => ({ src: "import type { SetupContext } from 'vue';\n" + RT_MODULES[c.m] + '\n', ts: true, opts: JSON.stringify(Object.assign({ resolveType }, c.v)) }));
   if (c.sp === 'I') return ['visitor', 'plugin'].map((entry) => ({ src: PROBE_SRC(PROBES[1]), entry, opts: c.json }));
   return VECTORS.map((v) => ({ src: niSrc(c), opts: vecOpts(v) }));
 }
@@ -113,6 +129,12 @@ function judge(c, resps) {
     });
     return { viol, obs: hash(JSON.stringify(resps.map((r) => !!r.opts_error)) + c.json), clauses: ['invalid-rejected'] };
   }
+  if (c.sp === 'R') {
+    for (const r of resps) if (r.parse_error) return { engineError: 'module does not parse: ' + r.parse_error };
+    const [off, on] = resps;
+    if (!(off.panic || off.died || on.panic || on.died) && off.printed !== on.printed) viol.push({ clause: 'non-interference', diff: 'resolveType:changes-module-without-vue-defineComponent', msg: "resolveType changes a module that contains no call to Vue's defineComponent with a typed setup function", expected: off.printed, observed: on.printed });
+    return { viol, obs: hash((off.printed || '') + '|' + (on.printed || '')), clauses: ['non-interference'] };
+  }
   // non-interference
   for (const r of resps) if (r.parse_error) return { engineError: 'case does not parse: ' + r.parse_error };
   const f = features(c);
@@ -136,6 +158,7 @@ function spaces(tier) {
   return [
     { name: 'D:config-spellings×probes', bounds: { booleans: BOOLS, each: 'absent|true|false', pragma: 'absent|"hh"|null', patterns: 'absent|[]|["^i-"]', unknown_key: 'absent|present', entries: ['visitor (serde_json::from_str::<Options>)', 'the real plugin entry source compiled natively'], probes: PROBES.map((p) => p.name) }, *gen() { yield { sp: 'D', cfg: null }; for (const cfg of configs(tier)) yield { sp: 'D', cfg }; } },
     { name: 'I:invalid-configs', bounds: { configs: INVALID }, *gen() { for (const json of INVALID) yield { sp: 'I', json }; } },
+    { name: 'R:resolveType-non-interference', bounds: { modules: Object.keys(RT_MODULES), other_options: '2^4 boolean vectors' }, *gen() { for (const m of Object.keys(RT_MODULES)) for (const v of RT_VECTORS) yield { sp: 'R', m, v }; } },
     {
       name: 'N:non-interference',
       bounds: { hosts: NI_HOSTS, attrs: NI_ATTRS.concat(Object.keys(NI_EXTRA)), max_attrs: 2, children: Object.keys(NI_CHILDREN), max_children: thorough ? 2 : 1, vectors: '2^5 booleans × pattern on/off = 64 per input' },
@@ -153,6 +176,7 @@ function spaces(tier) {
 
 function* shrink(c) {
   if (c.sp === 'D' && c.cfg) for (const k of Object.keys(c.cfg)) { const cfg = Object.assign({}, c.cfg); delete cfg[k]; yield { sp: 'D', cfg }; }
+  if (c.sp === 'R') { for (const k of Object.keys(c.v)) if (c.v[k] !== DEFAULTS[k]) yield Object.assign({}, c, { v: Object.assign({}, c.v, { [k]: DEFAULTS[k] }) }); }
   if (c.sp === 'N') {
     for (let i = 0; i < c.at.length; i++) yield Object.assign({}, c, { at: c.at.slice(0, i).concat(c.at.slice(i + 1)) });
     for (let i = 0; i < c.ch.length; i++) yield Object.assign({}, c, { ch: c.ch.slice(0, i).concat(c.ch.slice(i + 1)) });
@@ -167,6 +191,6 @@ module.exports = {
   rule: 'exhaustive enumeration of (D) configuration spellings - each boolean absent/true/false, pragma absent/"hh"/null, patterns absent/[]/["^i-"], unknown key, plus no configuration at all - each applied, through the visitor\'s serde path and through the real plugin entry compiled natively, to one probe module per option and compared byte-for-byte with the same probes under the configuration with every absent key replaced by its documented default; (I) invalid configurations must be refused by both entries with no output; (N) every element state (host × ≤2 attribute events × child events) is transformed under all 64 vectors (2^5 booleans × pattern on/off) and for every option whose governed feature the input does not use (classified by the generator) the outputs on both sides of the toggle must be byte-identical. Distinct = distinct printed-output vectors.',
   assumptions: ['documented defaults taken from the property statement / README', 'feature classification by the generator\'s abstract descriptors', 'plugin entry exercised natively through the swc_core shim (no WASM host)'],
   spaces, requests, judge, shrink,
-  caseKey: (c) => (c.sp === 'D' ? 'D:' + (c.cfg === null ? '(no config)' : JSON.stringify(c.cfg)) : c.sp === 'I' ? 'I:' + c.json : `N:${c.host}[${c.at.join(',')}](${c.ch.join(',')})`),
-  depth: (c) => (c.sp === 'D' ? (c.cfg ? Object.keys(c.cfg).length : 0) : c.sp === 'I' ? 1 : c.at.length + c.ch.length),
+  caseKey: (c) => (c.sp === 'D' ? 'D:' + (c.cfg === null ? '(no config)' : JSON.stringify(c.cfg)) : c.sp === 'I' ? 'I:' + c.json : c.sp === 'R' ? `R:${c.m} ${JSON.stringify(c.v)}` : `N:${c.host}[${c.at.join(',')}](${c.ch.join(',')})`),
+  depth: (c) => (c.sp === 'D' ? (c.cfg ? Object.keys(c.cfg).length : 0) : c.sp === 'I' || c.sp === 'R' ? 1 : c.at.length + c.ch.length),
 };
